@@ -188,8 +188,32 @@ def case_plu(T, tree, structured=None):
             T.check("plu:factor-wise", all(len(x.Ms) == len(A.Ms) for x in (P, L, U)), "number of factors changed")
 
 
+def case_sequence(T, trees, what):
+    """the factorisations do not depend on what was factorised before in the process: a stream of unrelated operators, each built, factorised,
+    checked and dropped (object addresses get reused), then the first one again with a refreshed payload"""
+    import gc
+    for i, tree in enumerate(trees + trees[:2]):
+        if what == "cholesky":
+            A, R = build_psd(T, tree, pfx=f"S{i}")
+            L = _dec().cholesky(A)
+            Ld = L.to_dense()
+            T.eq(f"cholesky #{i} {pname(tree)}: L L^H == A", Ld @ np.conjugate(Ld).T, expected(T, R), dtype=False)
+        else:
+            A, R = build(T, tree, pfx=f"S{i}")
+            P, L, U = _dec().plu(A)
+            T.eq(f"plu #{i} {tree_name(tree)}: P L U == A", P.to_dense() @ L.to_dense() @ U.to_dense(), expected(T, R), dtype=False)
+        del A, L
+        gc.collect()
+
+
 def cases(tier, seed):
     out = []
+    seq = [["kron", ["psd", 2, False], ["psd", 1, False]], ["kron", ["psd", 1, False], ["psd", 2, False]], ["kron", ["pdiag", 2], ["psd", 2, False]],
+           ["kron", ["psd", 2, False], ["pdiag", 2]], ["kron", ["psd", 1, False], ["psd", 1, False], ["psd", 2, False]], ["kron", ["psd", 2, True], ["psd", 1, False]]]
+    out.append(("sequence:cholesky(kron)", case_sequence, dict(trees=seq, what="cholesky"), dict(partial_ok=True)))
+    seqp = [["kron", ["dense", 2, 2, F8], ["dense", 1, 1, F8]], ["kron", ["dense", 1, 1, F8], ["dense", 2, 2, F8]], ["kron", ["diag", 2, F8], ["dense", 2, 2, F8]],
+            ["blockdiag", [["dense", 2, 2, F8]], [2]], ["kron", ["dense", 2, 2, F8], ["identity", 2, F8]]]
+    out.append(("sequence:plu(kron)", case_sequence, dict(trees=seqp, what="plu"), dict(partial_ok=True, max_paths=12)))
     chol = [["psd", 1, False], ["psd", 2, False], ["psd", 3, False], ["psd", 2, True], ["pdiag", 3], ["pscalar", 2], ["identity", 3],
             ["kron", ["psd", 2, False], ["psd", 3, False]], ["kron", ["psd", 2, False], ["pdiag", 3]], ["kron", ["psd", 2, True], ["psd", 1, False], ["pdiag", 2]],
             ["kron", ["psd", 2, False], ["identity", 2], ["pscalar", 2]],
